@@ -1098,7 +1098,10 @@ func (c *MapConverter) To(obj Object) (interface{}, error) {
 	}
 	mapType := reflect.MapOf(keyType, c.valueType)
 	gMap := reflect.MakeMapWithSize(mapType, tMap.Size())
-	for k, v := range tMap.items {
+	// (in the order of the keys: which of several unfit values is reported
+	// must not depend on Go's map iteration)
+	for _, k := range tMap.SortedKeys() {
+		v := tMap.items[k]
 		conv, err := c.valueConverter.To(v)
 		if err != nil {
 			return nil, err
